@@ -19,6 +19,65 @@ from .interp_expr import Frame
 _AUX_COMP: Dict[Any, Any] = {}
 
 
+def _is_fun_symbol(d):
+    return d.kind() in (z3.Z3_OP_UNINTERPRETED, z3.Z3_OP_RECURSIVE) and d.arity() > 0
+
+
+def _function_symbols(terms):
+    """names of the uninterpreted / recursive function symbols applied in terms (under binders too)"""
+    out = set()
+    seen = set()
+    stack = list(terms)
+    while stack:
+        t = stack.pop()
+        if t.get_id() in seen:
+            continue
+        seen.add(t.get_id())
+        if z3.is_quantifier(t):
+            stack.append(t.body())
+            continue
+        if z3.is_app(t):
+            if _is_fun_symbol(t.decl()):
+                out.add(t.decl().name())
+            stack.extend(t.children())
+    return out
+
+
+_BODY_SYMS: Dict[Any, Any] = {}
+
+
+def _closure_under_definitions(names):
+    """the symbols in `names` plus those their definitions mention, transitively (unfolding may introduce them)"""
+    by_name = {f.name(): (f, body) for f, params, body, twin in recfuns.REC.values()}
+    out = set(names)
+    work = list(names)
+    while work:
+        n = work.pop()
+        fb = by_name.get(n)
+        if fb is None or fb[1] is None:
+            continue
+        key = (n, fb[1].get_id())
+        if key not in _BODY_SYMS:
+            _BODY_SYMS[key] = _function_symbols([fb[1]])
+        for m in _BODY_SYMS[key]:
+            if m not in out:
+                out.add(m)
+                work.append(m)
+    return out
+
+
+def _trigger_symbols(q):
+    """function symbols that must occur for an explicit trigger of q to match (empty: no explicit trigger)"""
+    if not z3.is_quantifier(q) or q.num_patterns() == 0:
+        return set()
+    best = None
+    for i in range(q.num_patterns()):
+        syms = _function_symbols(list(q.pattern(i).children()))
+        if best is None or len(syms) < len(best):
+            best = syms
+    return best or set()
+
+
 def captures(terms, x):
     """the parameters of a lifted comprehension: the maximal subterms of the body that do not contain the
     bound element x (and are not literals), in order of first occurrence - so that two comprehensions of the
@@ -72,27 +131,28 @@ class ContractMixin:
     def obligation(self, name, kind, tag, goal, node=None, exact=None):
         goal = self.bterm(goal) if isinstance(goal, bool) else goal
         goal = self.skolemize(goal)
-        if z3.is_and(goal) and goal.num_args() > 1 and kind in ('inv', 'post', 'lemma'):
+        if z3.is_and(goal) and goal.num_args() > 1 and kind in ('inv', 'post', 'lemma', 'pre'):
             # one obligation per conjunct: smaller queries, more precise reports
             obs = [self.obligation(f'{name}#{i}', kind, tag, c, node, exact) for i, c in enumerate(goal.children())]
             return obs[0]
         st = self.ex.st
         defs = self.auto_unfold(goal)
         hyps = list(self.ex.base_hyps) + list(st.pc)
-        defs = defs + self.auto_lemmas() + self.quantified_defs(hyps + [goal])
+        defs = defs + self.auto_lemmas(hyps + [goal]) + self.quantified_defs(hyps + [goal])
         ob = Obligation(name, kind, tag, hyps + defs, goal, tuple(st.sig),
                         exact=(not st.inexact) if exact is None else exact,
                         where=f'line {getattr(node, "lineno", "?")}')
         self.obligations.append(ob)
         return ob
 
-    def auto_lemmas(self):
+    def auto_lemmas(self, terms=()):
         """proved lemmas flagged `auto` for a spec this task uses, as universally quantified hypotheses;
-        while proving a lemma only earlier lemmas (no circular reasoning)"""
+        while proving a lemma only earlier lemmas (no circular reasoning).  A lemma whose trigger mentions a
+        function symbol (spec, fold, predicate) that does not occur in the obligation cannot fire and is left out."""
         from .contracts import LEMMAS
         from .lemmas import lemma_as_hypothesis
-        out = []
         cur = getattr(self, 'current_lemma', None)
+        cands = []
         for lm in LEMMAS.values():
             if not lm.auto or not (set(lm.auto) & self.specs_used):
                 continue
@@ -100,9 +160,34 @@ class ContractMixin:
                 continue
             key = lm.name
             if key not in self._auto_cache:
-                self._auto_cache[key] = lemma_as_hypothesis(self, lm)
-            self.lemmas_used.add(lm.name)
-            out.append(self._auto_cache[key])
+                h = lemma_as_hypothesis(self, lm)
+                self._auto_cache[key] = (h, _trigger_symbols(h), _function_symbols([h]))
+            cands.append((lm,) + self._auto_cache[key])
+        if not terms:
+            for lm, h, syms, body_syms in cands:
+                self.lemmas_used.add(lm.name)
+            return [h for lm, h, syms, body_syms in cands]
+        # fixpoint: a lemma is relevant when the symbols of one of its triggers occur in the obligation, in the
+        # definitions reachable from it, or in a lemma already found relevant (whose instances may introduce them)
+        present = _closure_under_definitions(_function_symbols(terms))
+        chosen = {}
+        changed = True
+        while changed:
+            changed = False
+            for lm, h, syms, body_syms in cands:
+                if lm.name in chosen:
+                    continue
+                if not syms or syms <= present:
+                    chosen[lm.name] = h
+                    new_syms = _closure_under_definitions(body_syms) - present
+                    if new_syms:
+                        present |= new_syms
+                    changed = True
+        out = []
+        for lm, h, syms, body_syms in cands:
+            if lm.name in chosen:
+                self.lemmas_used.add(lm.name)
+                out.append(h)
         return out
 
     def quantified_defs(self, terms):
@@ -110,6 +195,10 @@ class ContractMixin:
         out = []
         if not self.qpreds:
             return out
+        from .models_specs import equiv_elimination
+        rule = equiv_elimination(self, terms)
+        if rule is not None:
+            out.append(rule)
         seen = set()
         done = set()
         stack = list(terms)
